@@ -24,7 +24,7 @@ ASSUMPTIONS = [
     "parameter points are restricted to positive-definite total covariance with cond <= 1e8 (measured on the reference; others discarded and counted)",
     "Poisson-type costs only with admissible data (non-negative integer counts) and positive model values",
     "documented formulas: docstrings of kafe2/fit/_base/cost.py (Gaussian NLL = standard normal pdf; Gauss approximation V~ = V + diag(m))",
-    "x-uncertainties are projected with the analytic slope; for models other than polynomials of degree <= 2 the comparison tolerance is 1e-5 relative (central-difference error of the implementation's slope is ~1e-7)",
+    "x-uncertainties are projected with the analytic slope; for models other than polynomials of degree <= 2 the comparison allows the analytic bound of the implementation's central-difference error (h^2/6 max|f3|, h = 0.01 sigma_x) propagated to V, sqrt(diag V) and the cost",
 ]
 ANCHORS = [
     ("kafe2.fit._base.cost", "CostFunction.__call__"),
@@ -147,6 +147,17 @@ def classify(case, ref, observable, extra=None):
 
             if allclose(extra["got"], alt, 1e-9, 1e-12, scale=extra.get("scale")):
                 return "C01/hist-model-relative-source-refers-to-density-integral-not-N-times-integral"
+            # the alternative covariance is often ill-conditioned (sigma too small by N): the cost computed from it is
+            # then numerically unstable, so confirm the mechanism on the covariance matrix itself
+            fit = extra.get("fit")
+            if fit is not None and observable == "cost_function_value":
+                ref.hist_model_ref_unscaled = True
+                try:
+                    Valt = ref.total_cov()
+                finally:
+                    ref.hist_model_ref_unscaled = False
+                if allclose(np.array(fit.total_cov_mat), Valt, 1e-9, 1e-300, scale=np.abs(Valt).max()):
+                    return "C01/hist-model-relative-source-refers-to-density-integral-not-N-times-integral"
     except Exception:
         return None
     return None
@@ -209,7 +220,7 @@ def run_case(ctx, case):
             ctx.violation(classify(case, ref, "do_fit"), "do_fit.no-exception", {"traceback": fmt_exc()})
             return nontrivial
     xproj_loose = spec["type"] == "xy" and ref.has_x_source() and spec["model"]["family"] not in ("poly0", "poly1", "poly2")
-    tol = Tol.custom("XPROJ", 1e-5, 1e-9) if xproj_loose else Tol.LINALG
+    tol = Tol.LINALG
     for p in case["points"]:
         ctx.op("set_all_parameter_values")
         dsl.apply_live(fit, spec, ["set_all_parameter_values", p])
@@ -238,6 +249,34 @@ def run_case(ctx, case):
                 ctx.discard("ga-cov-not-pd")
                 continue
         exp = ref.cost_value(fid=fid if fid != "unbinned" else None)
+        tol = Tol.LINALG
+        cov_atol = err_atol = 0.0
+        if xproj_loose:
+            # the implementation projects x uncertainties with a central-difference slope (step 0.01 sigma_x); bound its
+            # effect analytically: |delta g| <= h^2/6 max|f3|, propagated to V, sqrt(diag V) and (by re-evaluation of the
+            # reference with perturbed slopes) to the cost
+            dg = ref.slope_fd_error_bound()
+            g = ref.slope()
+            Vx = np.abs(ref.axis_cov("x"))
+            dV = Vx * (np.outer(np.abs(g), dg) + np.outer(dg, np.abs(g)) + np.outer(dg, dg))
+            cov_atol = dV
+            err_atol = np.diag(dV) / (2.0 * np.sqrt(np.maximum(np.diag(V), 1e-300)))
+            # first-order bound: sum_i |cost(g + dg_i e_i) - cost| (each direction separately), factor 2 for second order
+            dev = 0.0
+            for i in range(len(g)):
+                if dg[i] == 0.0:
+                    continue
+                e = np.zeros(len(g))
+                e[i] = dg[i]
+                for sgn in (1.0, -1.0):
+                    ref.slope_delta = sgn * e
+                    try:
+                        dev += 0.5 * abs(ref.cost_value(fid=fid) - exp)
+                    except Exception:
+                        pass
+                    finally:
+                        ref.slope_delta = None
+            tol = Tol.custom("XPROJ", 1e-9, 1e-12 + 2.0 * dev)
         # scale for the tolerance: sum of |terms|
         scale = abs(exp) + abs(ref.constraint_cost()) + (abs(ref.logdet()) if (fid in ("chi2_cov", "chi2_pw") and V is not None) else 0.0) + 1.0
         try:
@@ -247,7 +286,7 @@ def run_case(ctx, case):
             return nontrivial
         okc = ctx.close(
             "cost_function_value", got, exp, tol=tol, scale=scale, detail={"point": p, "fid": fid},
-            key=lambda: classify(case, ref, "cost_function_value", {"got": got, "scale": scale, "alt": lambda: ref.cost_value(fid=fid if fid != "unbinned" else None)}),
+            key=lambda: classify(case, ref, "cost_function_value", {"got": got, "scale": scale, "fit": fit, "alt": lambda: ref.cost_value(fid=fid if fid != "unbinned" else None)}),
         )
         # localisation observables
         try:
@@ -259,9 +298,9 @@ def run_case(ctx, case):
                 tc = fit.total_cov_mat
                 if tc is not None:
                     te = np.array(fit.total_error)
-                    ctx.close("total_cov_mat", np.array(tc), V, tol=tol, scale=np.abs(V).max() + 1e-300, detail={"point": p},
+                    ctx.close("total_cov_mat", np.array(tc) - np.clip(np.array(tc) - V, -cov_atol, cov_atol), V, tol=Tol.LINALG, scale=np.abs(V).max() + 1e-300, detail={"point": p, "raw_got": np.array(tc)},
                               key=lambda: classify(case, ref, "total_cov_mat", {"got": np.array(tc), "alt": lambda: ref.total_cov()}))
-                    ctx.close("total_error", te, np.sqrt(np.diag(V)), tol=tol, scale=np.sqrt(np.abs(V).max()) + 1e-300, detail={"point": p},
+                    ctx.close("total_error", te - np.clip(te - np.sqrt(np.diag(V)), -err_atol, err_atol), np.sqrt(np.diag(V)), tol=Tol.LINALG, scale=np.sqrt(np.abs(V).max()) + 1e-300, detail={"point": p, "raw_got": te},
                               key=lambda: classify(case, ref, "total_error", {"got": te, "alt": lambda: np.sqrt(np.diag(ref.total_cov()))}))
         except Exception:
             ctx.violation(classify(case, ref, "localisation"), "observables.no-exception", {"traceback": fmt_exc(), "point": p})
